@@ -164,6 +164,8 @@ def ref_kind(end) -> str:
         return "revert"
     if end.kind.startswith("exceptional"):
         return "exceptional"
+    if end.kind == "fail":  # a failed vm.assert* / failure flag (lib/foundry_spec.py)
+        return "fail"
     return "unsupported"
 
 
@@ -216,7 +218,7 @@ def obligations(hrecs, hdata, rends, extra_assume=(), observers=None, name="prog
                 continue
             PC = [exact.inline(c) for c in r.conds]
             base = PC + RC + A
-            if hk[i] != rk and not (hk[i] == "fail"):
+            if hk[i] != rk:
                 # kinds differ: the overlap must be empty
                 obls.append(Obl(f"{name}/O1kind/h{i}r{j}", "O1", base,
                                 dict(h=i, r=j, what=f"halmos ends {hk[i]} ({type(r.error).__name__}), EVM ends {e.kind}")))
